@@ -76,8 +76,19 @@ executed the command.  Anything else may come back (negative replies, unrelated 
 def Outcome.Genuine (tid : Nat) (o : Outcome) : Prop :=
   ∀ p, o.reply = some p → Positive tid p → o.exec = true
 
+instance (tid : Nat) (o : Outcome) : Decidable (o.Genuine tid) :=
+  match h : o.reply with
+  | none => isTrue (by intro p hp; rw [h] at hp; cases hp)
+  | some r =>
+    if hx : Positive tid r → o.exec = true then
+      isTrue (by intro p hp hpos; rw [h] at hp; cases hp; exact hx hpos)
+    else isFalse (by intro hg; exact hx (hg r h))
+
 /-- every outcome of the script is genuine -/
 def ScriptGenuine (tid : Nat) (s : List Outcome) : Prop := ∀ o ∈ s, o.Genuine tid
+
+instance (tid : Nat) (s : List Outcome) : Decidable (ScriptGenuine tid s) := by
+  unfold ScriptGenuine; infer_instance
 
 structure Env where
   tgt : Target
@@ -124,5 +135,25 @@ def loadPkts (tid page : Nat) : Nat → List (List UInt8) → List Pkt
 /-- the flash-write packet of the protocol: `(tid, 0x18, buffer page, flash page, page count)` -/
 def writePkt (tid bp fp n : Nat) : Pkt :=
   ⟨0xFF, [UInt8.ofNat tid, 0x18] ++ leBytes 2 bp ++ leBytes 2 fp ++ leBytes 2 n⟩
+
+/-- the individual buffer-byte writes `(buffer page, offset, byte)` the target performs for a packet sequence -/
+def byteWrites (tid : Nat) (pkts : List Pkt) : List (Nat × Nat × UInt8) :=
+  pkts.flatMap fun p =>
+    match decode tid p with
+    | some (.load page addr bytes) => (bytes.zipIdx addr).map fun x => (page, x.2, x.1)
+    | _ => []
+
+/-- number of pages an image of `len ≥ 1` bytes occupies -/
+def nPages (len pageSize : Nat) : Nat := (len - 1) / pageSize + 1
+
+/-- A transmitted packet is a command the target decodes, and it stays inside the page buffers and inside
+the flash pages `[S, S+n)` the image occupies (themselves inside the flash). -/
+def CmdWithin (g : Geom) (tid S n : Nat) (p : Pkt) : Prop :=
+  match decode tid p with
+  | some (.load page addr bytes) =>
+      page < g.bufferPages ∧ addr + bytes.length ≤ g.pageSize ∧ p.data.length ≤ 31
+  | some (.write bp fp cnt) =>
+      bp + cnt ≤ g.bufferPages ∧ S ≤ fp ∧ fp + cnt ≤ S + n ∧ S + n ≤ g.flashPages
+  | none => False
 
 end CfVerif.C12
